@@ -23,6 +23,8 @@ def run(ctx):
     from . import C10 as RC10
     from . import r_state as RS
     RC10.hidden_state_inventory(ctx, "R10.e", RS.reset_before_read(ctx, None))
+    from . import r_rank as RR
+    RR.search_chain_shape(ctx, "R06.a", parts=("complete", "score", "filter"))
     RC20.buffer_rules(ctx, None, None, "R20.f")
     return info("Necessary constants/shapes for prefix search: the Jaccard gate accepts distance 1/2 (first keystroke), "
                 "the length and DL gates accept distance 0, the gram iterator starts at width 1 and index writer and "
